@@ -44,16 +44,20 @@ def run(tier, seed):
                zones_removed_with_reason=0, compiler_raised=0, mutants=0, mutants_rejected_by_zic=0, arduino_zones_swept=0, arduino_instants=0)
     samples = []
 
-    def do_source(tag, text, names, windows, scopes=('extended', 'basic'), arduino=None, labels=None):
+    def do_source(tag, text, names, windows, scopes=('extended', 'basic'), arduino=None, labels=None, stricts=(False,)):
         """names: zone names to get zic tables for; labels: zone -> (seed, opclass) for violation keys"""
         cov['sources'] += 1
         lo = min(w[0] for w in windows); hi = max(w[1] for w in windows)
         tabs = zicrun.compile_text(text, names, lo=calendar.timegm((lo - 1, 1, 1, 0, 0, 0)), hi=calendar.timegm((hi + 1, 1, 1, 0, 0, 0)), crosscheck=(labels is None), tag=tag)
-        for (y0, y1) in windows:
+        tag0 = tag
+        for (y0, y1), strict in [(w, st) for w in windows for st in stricts]:
+            # strict=False is what tools/tzcompiler.py does by default (fields off the granularity are truncated and noted);
+            # strict=True removes such zones/policies with a reason instead
+            tag = tag0 + (':strict' if strict else '')
             for scope in scopes:
                 cov['configurations'] += 1
                 try:
-                    comp = pipeline.compile_text(text, scope, start_year=y0, until_year=y1)
+                    comp = pipeline.compile_text(text, scope, start_year=y0, until_year=y1, strict=strict)
                 except BaseException as e:
                     cov['compiler_raised'] += 1     # a source on which the compiler raises is "not accepted"
                     samples.append({'source': tag, 'scope': scope, 'compiler_raised': '%s: %s' % (type(e).__name__, str(e)[:120])})
@@ -84,7 +88,7 @@ def run(tier, seed):
                         rep.violation('c03:%s:%s:link-to-missing-zone' % (tag, scope), {'link': l, 'target': t})
                     elif l in tabs and t in tabs and tabs[l] != tabs[t]:
                         raise Broken('zic link table differs from target: %s' % l)
-                if arduino and (y0, y1) == windows[0]:
+                if arduino and (y0, y1) == windows[0] and strict == stricts[0]:
                     res, err = gensweep.sweep_generated(comp, tabs, 'c03', tier, seed, step=arduino.get('step'), win=arduino.get('win', 0))
                     if res is None:
                         rep.violation('c03:%s:%s:arduino:generated-code-does-not-compile' % (tag, scope), {'compiler': err[-1200:]})
@@ -94,6 +98,8 @@ def run(tier, seed):
                             res_key = k.replace('c03:', 'c03:%s:%s:arduino:' % (tag, scope), 1)
                             zn = dct.get('zone') if isinstance(dct, dict) else None
                             notes = ' '.join(str(x) for x in comp.notable_zones.get(zn, [])) if zn else ''
+                            if zn in comp.zones_map:
+                                notes += ' ' + ' '.join(str(x) for e in comp.zones_map[zn] for x in comp.notable_policies.get(e['rules'], []))
                             if TRUNC_NOTE.search(notes):
                                 continue
                             if labels and zn in labels:
@@ -118,7 +124,7 @@ def run(tier, seed):
     if bad:
         raise Broken('tzdata.zi normaliser changes the meaning of %d zones, e.g. %s' % (len(bad), bad[:3]))
     cov['s1_zones'] = len(zones); cov['s1_links'] = len(links); cov['s1_dropped_by_normaliser'] = sorted(dropped)
-    do_source('S1-2025b', text, names, [(2000, 2050)] + ([(2000, 2038), (2010, 2030)] if thorough else []),
+    do_source('S1-2025b', text, names, [(2000, 2050)] + ([(2000, 2038), (2010, 2030)] if thorough else []), stricts=(False, True),
               arduino={'step': 60 if thorough else 3600, 'win': 0 if thorough else 3 * 3600})
     if thorough:
         # windows reaching back before 2000 (the compiler accepts any start year): python language only
@@ -140,7 +146,7 @@ def run(tier, seed):
     labels = {m[4]: (m[1], m[2].split('=')[0].split(',')[0].split('.')[-1] if m[2] != 'seed' else 'seed', m[2], m[3]) for m in fam if m[0] in keptset}
     text3 = '\n'.join(t for _, t in kept) + '\n'
     do_source('S3-mutants', text3, sorted(labels), [(2000, 2050)] + ([(2000, 2038), (2010, 2030)] if thorough else [(2010, 2030)]),
-              labels=labels, arduino=({'step': 3600, 'win': 3 * 3600} if thorough else {'step': 4 * 3600, 'win': 2 * 3600}))
+              labels=labels, stricts=(False, True), arduino=({'step': 3600, 'win': 3 * 3600} if thorough else {'step': 4 * 3600, 'win': 2 * 3600}))
     # ---- S4: era chains with whole-year UNTIL (the multi-era shape the basic scope admits), exhaustive products
     rules4, chains = mutants.era_chains()
     kept4, rej4 = zic_filter([('rules', rules4)] + [(i, c[3]) for i, c in enumerate(chains)], 'S4')
@@ -163,13 +169,21 @@ def run(tier, seed):
     text5 = '\n'.join(c[3] for i, c in enumerate(edge) if i in kept5set) + '\n'
     do_source('S5-yearedge', text5, sorted(labels5), [(2000, 2050)],
               labels=labels5, arduino=({'step': 900, 'win': 3 * 3600} if thorough else {'step': 3600, 'win': 2 * 3600}))
+    # ---- S6: fields off the table granularity - the truncation (non-strict) and removal (strict) paths
+    g6 = mutants.granularity_source()
+    kept6, rej6 = zic_filter([(i, c[3]) for i, c in enumerate(g6)], 'S6')
+    k6 = {k for k, _ in kept6}
+    cov['granularity_zones'] = len(k6)
+    labels6 = {c[4]: (c[0], c[1], c[2], c[3]) for i, c in enumerate(g6) if i in k6}
+    do_source('S6-granularity', '\n'.join(c[3] for i, c in enumerate(g6) if i in k6) + '\n', sorted(labels6), [(2000, 2050)], labels=labels6, stricts=(False, True),
+              arduino={'step': 3600, 'win': 2 * 3600})
     samples += [{'mutant': labels[z][2], 'seed': labels[z][0], 'source_text': labels[z][3]} for z in sorted(labels)[100:103]]
     rep.coverage.update(cov)
     rep.assumptions += [
         'S1 = /usr/share/zoneinfo/tzdata.zi (2025b) expanded to the classic layout; %z spelled out numerically; zones whose %z needs two DST spellings are dropped and listed; the normaliser is checked on every run against zic on the original file from 2000 on',
         'python language: InlineGenerator maps interpreted by ZoneSpecifier, transitions of every year compared with the zic table as piecewise-constant functions (exact, no sampling)',
         'arduino language: generated zone_*.cpp compiled under a private namespace against /repo/src and swept by the C01/C02 driver (S1: %s; S3: %s)' % ('every minute' if thorough else 'hourly grid + every minute within 3 h of each zic transition + second probes', 'hourly grid + 3 h windows' if thorough else '4 h grid + every minute within 2 h of each zic transition + second probes'),
-        'a zone whose notable_* comment mentions truncation/granularity is exempt from the equality check, and only such zones; a source on which the compiler raises counts as not accepted',
+        'every source is compiled non-strict (the tzcompiler default: off-granularity fields truncated and noted) and S1/S3/S6 also strict (such zones removed with a reason); a zone whose notable_* comment (its own or of a policy it uses) mentions truncation/granularity is exempt from the equality check, and only such zones; a source on which the compiler raises counts as not accepted',
         'mutants rejected by zic are outside the quantifier and counted',
     ]
     return rep.finish(exhaustive=False, extra={'evaluations': cov['zones_compared_python'] + cov['arduino_zones_swept'], 'distinct_nontrivial': cov['zone_breakpoints_compared'],
